@@ -194,6 +194,15 @@ func CheckOrderingLossy(c *Ctx, clients []*TClient, lossy map[*TClient]bool) {
 							if o.Name == parts[1] && lossy[o] {
 								callerLossy = true
 							}
+							if o.Name == parts[1] {
+								// likewise when a progressive call invocation ended (time-out, callee gone, ...)
+								// while its caller had already decided to send the next chunk
+								for _, cr := range o.Calls {
+									if cr.Tag == tag && len(o.ChunkAt[cr.Req]) > 1 {
+										callerLossy = true
+									}
+								}
+							}
 						}
 						if last, seen := lastCall[parts[1]]; seen && (n < last || (n == last && !callerLossy)) {
 							c.Violf("%s: calls of caller %s arrived out of call order: call %d after call %d", cl.Name, parts[1], n, last)
